@@ -1,6 +1,6 @@
 //! End-to-end checks through the real listener: C01 C03(e2e half) C04(e2e half) C05 C07 C11 C13 C14 C15.
 
-use gpa_verif::props::{c01, c05};
+use gpa_verif::props::{c01, c05, c14, c15};
 use gpa_verif::report::{Known, Params, Stats};
 use gpa_verif::rig::Rig;
 use gpa_verif::runner::Drive;
@@ -48,6 +48,16 @@ fn main() {
             let n = params.share(if th { 200_000 } else { 6_000 });
             Drive { params: &params, stats: &mut stats, known: &known }.run("c04.e2e", 41, c05::strategy(0..1, 0.999), n, |c, s| c05::eval(&rig, c, s, true));
             (c05::RULE_C04.into(), e2e_assumptions)
+        }
+        "C14" => {
+            let n = params.share(if th { 100_000 } else { 2_400 });
+            Drive { params: &params, stats: &mut stats, known: &known }.run("c14.transparency", 14, c14::strategy(), n, |c, s| c14::eval(&rig, c, s));
+            (c14::RULE.into(), e2e_assumptions)
+        }
+        "C15" => {
+            let n = params.share(if th { 40_000 } else { 900 });
+            Drive { params: &params, stats: &mut stats, known: &known }.run("c15.limits", 15, c15::strategy(if th { 30 } else { 10 }), n, |c, s| c15::eval(&rig, c, s));
+            (c15::RULE.into(), e2e_assumptions)
         }
         other => {
             eprintln!("e2e: unknown property '{}'", other);
